@@ -84,6 +84,16 @@ func (p *Parser) scanWithEOL() (tok Token, lit string) {
 // unscan pushes the previously read token back onto the buffer.
 func (p *Parser) unscan() { p.buf.n = 1 }
 
+// scanWord scans the next token of the alignment body: after the header line,
+// the word "CLUSTAL" is an ordinary identifier (sequence name or sequence).
+func (p *Parser) scanWord() (tok Token, lit string) {
+	tok, lit = p.scan()
+	if tok == CLUSTAL {
+		tok = IDENTIFIER
+	}
+	return
+}
+
 // Parse parses a clustal alignment
 func (p *Parser) Parse() (al align.Alignment, err error) {
 	var nbseq int = 0
@@ -102,7 +112,7 @@ func (p *Parser) Parse() (al align.Alignment, err error) {
 	var nblocks = 0
 	for tok != EOF {
 		// Scan sequence name
-		tok, lit = p.scan()
+		tok, lit = p.scanWord()
 		// Last line of a block
 		if tok == WS {
 			if currentnbseqs == 0 {
@@ -128,7 +138,7 @@ func (p *Parser) Parse() (al align.Alignment, err error) {
 				err = errors.New("there should be a new line after degree of conservation line")
 				return
 			}
-			tok, lit = p.scan()
+			tok, lit = p.scanWord()
 			if tok == EOF {
 				break
 			}
@@ -153,7 +163,7 @@ func (p *Parser) Parse() (al align.Alignment, err error) {
 			return
 		}
 
-		tok, lit = p.scan()
+		tok, lit = p.scanWord()
 		if tok != IDENTIFIER {
 			err = errors.New("we expect a sequence here")
 			return
